@@ -189,39 +189,47 @@ const (
 )
 
 type Reply struct {
-	Kind    ReplyKind
-	Status  int             // HTTP status (0 = 200)
-	Result  json.RawMessage // ReplyResult: any JSON value (nil = omit the member)
-	Code    int64           // ReplyRPCError
-	Message string          // ReplyRPCError
-	Body    []byte          // ReplyHTTPError / ReplyRawBody
-	Delay   time.Duration   // wait before answering (forces completion orders of concurrent members)
-	EchoID  json.RawMessage // nil = echo the id the proxy sent; otherwise this JSON value is used as id
+	Kind        ReplyKind
+	Status      int             // HTTP status (0 = 200)
+	Result      json.RawMessage // ReplyResult: any JSON value (nil = omit the member)
+	Code        int64           // ReplyRPCError
+	Message     string          // ReplyRPCError
+	Body        []byte          // ReplyHTTPError / ReplyRawBody
+	ContentType string          // ReplyHTTPError / ReplyRawBody: overrides the Content-Type
+	Data        json.RawMessage // ReplyRPCError: optional "data" member
+	Delay       time.Duration   // wait before answering (forces completion orders of concurrent members)
+	EchoID      json.RawMessage // nil = echo the id the proxy sent; otherwise this JSON value is used as id
 }
 
 // Frame is one request received by the backend.
 type Frame struct {
-	Seq    int               // global arrival order
-	Conn   int               // connection number (frames with equal Conn arrived on one TCP connection, in Seq order)
-	Raw    []byte            // body as received
-	Method string            // "" when not decodable
-	ID     json.RawMessage   // as sent by the proxy
-	Params []json.RawMessage // nil when the member is absent
-	HasParams bool
-	JSONRpc string
-	Path   string
+	Seq        int               // global arrival order
+	Conn       int               // connection number (frames with equal Conn arrived on one TCP connection, in Seq order)
+	Raw        []byte            // body as received
+	Method     string            // "" when not decodable
+	ID         json.RawMessage   // as sent by the proxy
+	Params     []json.RawMessage // nil when the member is absent
+	HasParams  bool
+	JSONRpc    string
+	Path       string
 	HTTPMethod string
-	At     time.Time
+	At         time.Time
+	// what was answered (filled in once the reply has been written)
+	Replied     bool
+	ReplyStatus int    // 0 when the connection was dropped
+	ReplyCT     string // Content-Type sent
+	ReplyBody   []byte
+	Dropped     bool
 }
 
 type Backend struct {
-	mu      sync.Mutex
-	frames  []Frame
-	script  func(f *Frame) Reply
-	ln      net.Listener
-	srv     *http.Server
-	conns   map[net.Conn]int
-	nconn   int
+	mu     sync.Mutex
+	frames []Frame
+	script func(f *Frame) Reply
+	ln     net.Listener
+	srv    *http.Server
+	conns  map[net.Conn]int
+	nconn  int
 }
 
 type connKey struct{}
@@ -302,6 +310,20 @@ func (b *Backend) serve(w http.ResponseWriter, r *http.Request) {
 	if rep.Delay > 0 {
 		time.Sleep(rep.Delay)
 	}
+	record := func(status int, ct string, body []byte, dropped bool) {
+		b.mu.Lock()
+		if fr.Seq < len(b.frames) && b.frames[fr.Seq].At.Equal(fr.At) {
+			f := &b.frames[fr.Seq]
+			f.Replied, f.ReplyStatus, f.ReplyCT, f.ReplyBody, f.Dropped = true, status, ct, body, dropped
+		}
+		b.mu.Unlock()
+	}
+	send := func(status int, ct string, body []byte) {
+		record(status, ct, body, false)
+		w.Header().Set("Content-Type", ct)
+		w.WriteHeader(status)
+		w.Write(body)
+	}
 	id := fr.ID
 	if rep.EchoID != nil {
 		id = rep.EchoID
@@ -315,6 +337,7 @@ func (b *Backend) serve(w http.ResponseWriter, r *http.Request) {
 	}
 	switch rep.Kind {
 	case ReplyDrop:
+		record(0, "", nil, true)
 		if hj, ok := w.(http.Hijacker); ok {
 			if c, _, err := hj.Hijack(); err == nil {
 				if tc, ok := c.(*net.TCPConn); ok {
@@ -326,25 +349,25 @@ func (b *Backend) serve(w http.ResponseWriter, r *http.Request) {
 		}
 		panic(http.ErrAbortHandler)
 	case ReplyHTTPError, ReplyRawBody:
-		if rep.Kind == ReplyRawBody || json.Valid(rep.Body) {
-			w.Header().Set("Content-Type", "application/json")
-		} else {
-			w.Header().Set("Content-Type", "text/plain")
+		ct := "text/plain"
+		if rep.ContentType != "" {
+			ct = rep.ContentType
+		} else if rep.Kind == ReplyRawBody || json.Valid(rep.Body) {
+			ct = "application/json"
 		}
-		w.WriteHeader(status)
-		w.Write(rep.Body)
+		send(status, ct, rep.Body)
 	case ReplyRPCError:
-		w.Header().Set("Content-Type", "application/json")
-		w.WriteHeader(status)
 		msg, _ := json.Marshal(rep.Message)
-		fmt.Fprintf(w, `{"jsonrpc":"2.0","id":%s,"error":{"code":%d,"message":%s}}`, id, rep.Code, msg)
+		data := ""
+		if rep.Data != nil {
+			data = `,"data":` + string(rep.Data)
+		}
+		send(status, "application/json", []byte(fmt.Sprintf(`{"jsonrpc":"2.0","id":%s,"error":{"code":%d,"message":%s%s}}`, id, rep.Code, msg, data)))
 	default:
-		w.Header().Set("Content-Type", "application/json")
-		w.WriteHeader(status)
 		if rep.Result == nil {
-			fmt.Fprintf(w, `{"jsonrpc":"2.0","id":%s}`, id)
+			send(status, "application/json", []byte(fmt.Sprintf(`{"jsonrpc":"2.0","id":%s}`, id)))
 		} else {
-			fmt.Fprintf(w, `{"jsonrpc":"2.0","id":%s,"result":%s}`, id, rep.Result)
+			send(status, "application/json", []byte(fmt.Sprintf(`{"jsonrpc":"2.0","id":%s,"result":%s}`, id, rep.Result)))
 		}
 	}
 }
@@ -358,8 +381,8 @@ type ProxyOptions struct {
 	WorkDir    string // config file and log are written here
 	KeyDir     string
 	BackendURL string
-	ChainID    int64  // < 0: not configured (the proxy queries net_version at start)
-	ExtraYAML  string // appended to the config verbatim
+	ChainID    int64         // < 0: not configured (the proxy queries net_version at start)
+	ExtraYAML  string        // appended to the config verbatim
 	StartWait  time.Duration // default 15s
 }
 
@@ -429,17 +452,27 @@ func StartProxy(o ProxyOptions) (*Proxy, error) {
 	if wait == 0 {
 		wait = 15 * time.Second
 	}
+	// The listening socket exists as soon as the server object is built — before Start() has
+	// discovered the chain id — so readiness is "an eth_accounts POST is answered", not "the port
+	// accepts connections".  A process that fails in Start() exits instead.
 	deadline := time.Now().Add(wait)
+	probe := &http.Client{Timeout: 400 * time.Millisecond}
+	defer probe.CloseIdleConnections()
 	for time.Now().Before(deadline) {
 		select {
 		case <-p.done:
 			return p, fmt.Errorf("ffsigner exited during start: %v", p.exitErr)
 		default:
 		}
-		c, err := net.DialTimeout("tcp", fmt.Sprintf("127.0.0.1:%d", port), 200*time.Millisecond)
+		req, _ := http.NewRequest(http.MethodPost, p.URL, strings.NewReader(`{"jsonrpc":"2.0","id":"ready","method":"eth_accounts"}`))
+		req.Header.Set("Content-Type", "application/json")
+		res, err := probe.Do(req)
 		if err == nil {
-			c.Close()
-			return p, nil
+			io.Copy(io.Discard, res.Body)
+			res.Body.Close()
+			if res.StatusCode == 200 {
+				return p, nil
+			}
 		}
 		time.Sleep(15 * time.Millisecond)
 	}
